@@ -760,6 +760,13 @@ const (
 	ownOtherKind
 )
 
+// plainOwnerRef is a non-controller owner reference as a user or another
+// component writes it: the optional "controller" and "blockOwnerDeletion" fields
+// are absent.
+func plainOwnerRef() metav1.OwnerReference {
+	return metav1.OwnerReference{APIVersion: "v1", Kind: "ConfigMap", Name: "cfg", UID: types.UID("cfg-uid")}
+}
+
 // ownAltVersion (bit 2 of the class): the reference to this set is written with
 // the other version the CRD serves; it names the same object (kind, name, UID).
 const ownAltVersion = 4
@@ -821,7 +828,7 @@ func (s *Sim) findOrMakeRevision(set *asv1.StatefulSet, c *SetCfg, tv int, creat
 }
 
 // mkpod: A=set, B=ordinal, C=attribute bits, D=template version, S=explicit name.
-// bits: owner(2) | phase(3)<<2 | terminating<<5 | nomatch<<6 | revmode(2)<<7 | novolumes<<9 | altversion<<10
+// bits: owner(2) | phase(3)<<2 | terminating<<5 | nomatch<<6 | revmode(2)<<7 | novolumes<<9 | altversion<<10 | plain extra owner<<11
 func (s *Sim) stepMkPod(st Step) bool {
 	set, c := s.getSet(st.A)
 	if c == nil {
@@ -874,6 +881,9 @@ func (s *Sim) stepMkPod(st Step) bool {
 		}
 	}
 	p.OwnerReferences = s.ownerRefs(owner|((bits>>10)&1)<<2, set, c)
+	if (bits>>11)&1 == 1 {
+		p.OwnerReferences = append(p.OwnerReferences, plainOwnerRef())
+	}
 	created, err := stCreate(s.Store, KPod, NS, p)
 	if err != nil {
 		return false
@@ -950,7 +960,10 @@ func (s *Sim) stepMkRev(st Step) bool {
 	}
 	r.Data = runtime.RawExtension{Raw: RefPatch(&t)}
 	r.Revision = int64(abs(st.D))
-	r.OwnerReferences = s.ownerRefs(owner, set, c)
+	r.OwnerReferences = s.ownerRefs(owner|((bits>>4)&1)<<2, set, c)
+	if (bits>>5)&1 == 1 {
+		r.OwnerReferences = append(r.OwnerReferences, plainOwnerRef())
+	}
 	if _, err := stCreate(s.Store, KRev, NS, r); err != nil {
 		return false
 	}
